@@ -554,23 +554,67 @@ pub fn civil(ns: i128) -> (i32, u8, u8, u8, u8, u8, u16, u16, u16) {
 /// An IXDTF string whose wall-clock fields are the UTC fields of `ns`.
 fn ixdtf(ns: i128, zone: &str, sel: u32) -> String {
     let (y, mo, d, h, mi, s, ms, us, n) = civil(ns);
+    let mut x = Sel::new(sel, 6);
     let mut out = String::new();
     if (0..=9999).contains(&y) {
         let _ = write!(out, "{y:04}");
     } else {
         let _ = write!(out, "{}{:06}", if y < 0 { '-' } else { '+' }, y.abs());
     }
-    let _ = write!(out, "-{mo:02}-{d:02}T{h:02}:{mi:02}:{s:02}.{ms:03}{us:03}{n:03}");
-    match (sel / 16) % 5 {
-        0 => {}
-        1 => out.push('Z'),
-        2 => out.push_str("+00:00"),
-        3 => out.push_str("-05:00"),
-        _ => out.push_str("+01:00"),
+    // date: extended or basic format
+    let basic = x.below(8) == 7;
+    if basic {
+        let _ = write!(out, "{mo:02}{d:02}");
+    } else {
+        let _ = write!(out, "-{mo:02}-{d:02}");
     }
-    let _ = write!(out, "[{zone}]");
-    if (sel / 80) % 3 == 1 {
-        out.push_str("[u-ca=gregory]");
+    // time: present or not, separator T / t / space, precision
+    let with_time = x.below(8) != 7;
+    if with_time {
+        out.push(x.pick(&['T', 'T', 'T', 't', ' ']));
+        let sep = if basic { "" } else { ":" };
+        let _ = write!(out, "{h:02}{sep}{mi:02}");
+        match x.below(6) {
+            0 => {}
+            1 => {
+                let _ = write!(out, "{sep}{s:02}");
+            }
+            2 => {
+                let _ = write!(out, "{sep}{s:02}.{ms:03}");
+            }
+            3 => {
+                let _ = write!(out, "{sep}{s:02},{ms:03}{us:03}");
+            }
+            _ => {
+                let _ = write!(out, "{sep}{s:02}.{ms:03}{us:03}{n:03}");
+            }
+        }
+        // offset
+        match x.below(9) {
+            0 | 1 => {}
+            2 => out.push('Z'),
+            3 => out.push('z'),
+            4 => out.push_str("+00:00"),
+            5 => out.push_str("-05:00"),
+            6 => out.push_str("+01:00"),
+            7 => out.push_str("-0400"),
+            _ => out.push_str("+05:30:00.000000001"),
+        }
+    }
+    // time zone annotation (sometimes critical), calendar annotation(s)
+    if x.below(10) == 9 {
+        let _ = write!(out, "[!{zone}]");
+    } else {
+        let _ = write!(out, "[{zone}]");
+    }
+    match x.below(8) {
+        0 => out.push_str("[u-ca=gregory]"),
+        1 => out.push_str("[!u-ca=iso8601]"),
+        2 => out.push_str("[u-ca=japanese]"),
+        3 => out.push_str("[u-ca=hebrew][u-ca=gregory]"),
+        4 => out.push_str("[foo=bar]"),
+        5 => out.push_str("[!foo=bar]"),
+        _ => {}
     }
     out
 }
